@@ -47,7 +47,7 @@ def prune_old(keep):
         shutil.rmtree(os.path.join(vlib.BUILD, d), ignore_errors=True)
 
 
-def build_lib(root, name, btype):
+def build_lib(root, name, btype, extra=()):
     """libmimalloc.so + the override object, by /repo's CMakeLists.txt (MI_OVERRIDE=ON)."""
     d = os.path.join(root, name)
     stamp = os.path.join(d, "ok.stamp")
@@ -60,8 +60,8 @@ def build_lib(root, name, btype):
     os.makedirs(d)
     t0 = time.time()
     vlib.sh(["cmake", "-S", vlib.REPO, "-B", d, "-G", "Ninja", "-DCMAKE_BUILD_TYPE=" + btype, "-DMI_BUILD_TESTS=OFF",
-             "-DMI_BUILD_STATIC=OFF", "-DMI_BUILD_SHARED=ON", "-DMI_BUILD_OBJECT=ON", "-DMI_OVERRIDE=ON"], timeout=300, check=True)
-    rc, out = vlib.sh(["ninja", "-C", d, "-j6", "mimalloc", "mimalloc-obj-target"], timeout=900)
+             "-DMI_BUILD_STATIC=OFF", "-DMI_BUILD_SHARED=ON", "-DMI_BUILD_OBJECT=ON", "-DMI_OVERRIDE=ON"] + list(extra), timeout=300, check=True)
+    rc, out = vlib.sh(["ninja", "-C", d, "-j4", "mimalloc", "mimalloc-obj-target"], timeout=900)
     if rc != 0:
         raise vlib.InfraError("build of the override library failed (%s):\n%s" % (name, out[-5000:]))
     sos = [f for f in os.listdir(d) if re.fullmatch(r"libmimalloc[-\w]*\.so", f)]
@@ -80,20 +80,19 @@ def build_programs(root, name, obj, has_cfree=False):
     stamp = os.path.join(d, "ok.stamp")
     exes = {}
     for base, lang in (("ovr_c", "c"), ("ovr_cpp", "cpp"), ("smoke_c", "c"), ("smoke_cpp", "cpp")):
-        exes[(base, "preload")] = os.path.join(root, "prog", base)
+        exes[(base, "preload")] = os.path.join(d, base)
         exes[(base, "static")] = os.path.join(d, base + "_static")
     if os.path.exists(stamp) and all(os.path.exists(e) for e in exes.values()):
         return exes
     os.makedirs(d, exist_ok=True)
-    os.makedirs(os.path.join(root, "prog"), exist_ok=True)
     jobs = []
     for (base, mode), exe in exes.items():
         cpp = base.endswith("cpp")
         src = os.path.join(OVR, base + (".cpp" if cpp else ".c"))
         cmd = (["g++"] + CXXFLAGS if cpp else ["gcc"] + CFLAGS) + ["-I" + vlib.HARNESS] + (["-DOVR_HAS_CFREE=1"] if has_cfree else [])
         cmd += ([obj] if mode == "static" else []) + [src, "-o", exe, "-lpthread", "-ldl"]
-        if mode == "preload" and os.path.exists(exe):
-            continue
+        if mode == "static" and name == "cxx" and not cpp:
+            cmd.append("-lstdc++")       # a C program linked with the C++-compiled override object needs the C++ runtime
         jobs.append(lambda cmd=cmd: vlib.sh(cmd, timeout=300))
     t0 = time.time()
     for rc, out in vlib.parallel(jobs, nproc=6):
@@ -196,29 +195,33 @@ def run(tier, seed):
     os.makedirs(root, exist_ok=True)
     os.utime(root)
     prune_old(root)
-    cfgs = [("rel", "Release")] + ([("dbg", "Debug")] if q == 1 else [])
+    # rel: the default build (library compiled as C); cxx: MI_USE_CXX=ON, the library compiled as C++ (operator new can throw);
+    # dbg: MI_DEBUG assertions (thorough)
+    cfgs = [("rel", "Release", ()), ("cxx", "Release", ("-DMI_USE_CXX=ON",))] + ([("dbg", "Debug", ())] if q == 1 else [])
     built, berr = {}, []
 
-    def do_build():
+    def do_build(name, btype, extra):
         try:
-            for name, btype in cfgs:
-                so, obj = build_lib(root, name, btype)
-                built[name] = (so, obj, build_programs(root, name, obj, has_cfree))
+            so, obj = build_lib(root, name, btype, extra)
+            built[name] = (so, obj, build_programs(root, name, obj, has_cfree))
         except Exception as e:
             berr.append(e)
-    th = threading.Thread(target=do_build)
-    th.start()
+    ths = [threading.Thread(target=do_build, args=c) for c in cfgs]
+    for th in ths:
+        th.start()
     t0 = time.time()
     try:
         progs, mc = enumerate_matrix(mc_cfg, q)
     finally:
-        th.join()
+        for th in ths:
+            th.join()
+    built = {c[0]: built[c[0]] for c in cfgs if c[0] in built}      # fixed order
     if berr:
         raise berr[0]
     pairs = sorted(set((p["ae"], p["re"]) for p in progs if p["re"] != "none"))
     aes = sorted(set(a for a, _ in pairs))
     res_ = sorted(set(r for _, r in pairs))
-    log("  MC: %d states, %d transitions; %d programs = %d pairs (%d allocating x %d releasing entry points) x sizes/alignments + %d malformed requests; %.1fs"
+    log("  MC: %d states, %d transitions; %d programs = %d pairs (%d allocating x %d releasing entry points) x sizes/alignments + %d malformed / unsatisfiable requests (posix_memalign, reallocarray, every operator new form); %.1fs"
         % (mc["distinct"], mc["generated"], len(progs), len(pairs), len(aes), len(res_), sum(1 for p in progs if p["re"] == "none"), time.time() - t0))
     if len(pairs) != len(aes) * len(res_):
         raise vlib.InfraError("the emitted pairs are not the full product")
@@ -229,26 +232,32 @@ def run(tier, seed):
     jobs = []
     nshard = (4, 10)[q]
     for name, (so, obj, exes) in built.items():
+        lib = "cxx" if name == "cxx" else "c"
         for lang in ("c", "cpp"):
-            sel = [p for p in progs if lang == "cpp" or p["flavour"] == "c"]
+            # the failing-operator-new programs are specific to how the library was compiled; the C++-compiled library runs
+            # them (and the smoke programs) always, the whole matrix in the thorough tier
+            sel = [p for p in progs if (lang == "cpp" or p["flavour"] == "c") and p["lib"] in ("any", lib)
+                   and (name != "cxx" or q == 1 or p["lib"] == "cxx")]
+            if not sel:
+                continue
             for rep in range((1, 2)[q]):
                 order = list(sel)
                 rng.shuffle(order)
-                k = max(1, (len(order) + nshard - 1) // nshard)
+                k = max(50, (len(order) + nshard - 1) // nshard)
                 for si in range(0, len(order), k):
                     pf = os.path.join(od, "prog_%s_%s_%d_%d.txt" % (name, lang, rep, si // k))
                     write_prog(order[si:si + k], pf)
                     for mode in ("preload", "static"):
                         tr = os.path.join(od, "ovr_%s_%s_%s_%d_%d.ndjson" % (name, lang, mode, rep, si // k))
                         exe = exes[("ovr_" + lang, mode)]
-                        cmd = ["env", "-i"] + (["LD_PRELOAD=" + so] if mode == "preload" else []) + [exe, "--out", tr, "--prog", pf, "--mode", mode, "--dir", od, "--watchdog", str((40, 200)[q])]
+                        cmd = ["env", "-i"] + (["LD_PRELOAD=" + so] if mode == "preload" else []) + [exe, "--out", tr, "--prog", pf, "--mode", mode, "--dir", od, "--watchdog", str((40, 200)[q]), "--lib", lib]
                         runs.append((tr, name, mode, lang, len(order[si:si + k])))
                         jobs.append(lambda cmd=cmd: vlib.sh(cmd, timeout=420))
         for lang in ("c", "cpp"):
             for mode in ("preload", "static"):
                 tr = os.path.join(od, "ovr_smoke_%s_%s_%s.ndjson" % (name, lang, mode))
                 exe = exes[("smoke_" + lang, mode)]
-                cmd = ["env", "-i"] + (["LD_PRELOAD=" + so] if mode == "preload" else []) + [exe, "--out", tr, "--mode", mode, "--dir", od]
+                cmd = ["env", "-i"] + (["LD_PRELOAD=" + so] if mode == "preload" else []) + [exe, "--out", tr, "--mode", mode, "--dir", od, "--lib", lib]
                 runs.append((tr, name, mode, lang, 0))
                 jobs.append(lambda cmd=cmd: vlib.sh(cmd, timeout=300))
     t0 = time.time()
@@ -342,11 +351,11 @@ def run(tier, seed):
         "traces_validated_against_impl": len(runs), "trace_events_validated": consumed, "trace_events_total": total,
         "exhaustive": True,
         "exhaustive_over": "the full product (allocating entry point x releasing/resizing/querying entry point) x configured sizes x alignments, "
-                           "plus the malformed requests; every variant emitted by TLC was executed in every configuration",
+                           "plus the malformed and unsatisfiable requests (every operator new form with an unsatisfiable size, against a C- and a C++-compiled library); every variant emitted by TLC was executed in every configuration",
         "pairs": len(pairs), "allocating_entry_points": aes, "releasing_entry_points": res_,
         "programs_generated_by_tlc": len(progs), "programs_std_defined": nstd, "programs_defined_by_C19_only": len(progs) - nstd - sum(1 for p in progs if p["re"] == "none"),
         "executions": len(runs), "pair_executions": sum(rn[4] for rn in runs),
-        "configurations": ["%s/%s/%s" % (n, m, l) for n in built for m in ("preload", "static") for l in ("c", "cpp")],
+        "configurations": sorted(set("%s/%s/%s" % (rn[1], rn[2], rn[3]) for rn in runs)),
         "whole_program_runs": sum(1 for rn in runs if rn[4] == 0),
         "platform": {"cfree_provided_by_libc": has_cfree},
         "samples": samples,
